@@ -33,12 +33,17 @@ Section Proofs.
     fired (snd (drive g w)) = fired w /\ cancelled (snd (drive g w)) = cancelled w /\
     match fst (drive g w) with Suspended d _ => ~ In d (fired w) | Finished _ => True end.
   Proof.
-    induction g as [v|e|d k IH|v k IH|t g IH]; intros w; cbn [Model.drive].
+    induction g as [v|e|d k IH|v k IH|t g IHg|g IHg k IH]; intros w; cbn [Model.drive].
     - cbn. auto.
     - cbn. auto.
     - destruct (mem d (fired w)) eqn:E; [apply (IH _ (consume d w))|]. cbn. apply mem_false in E. auto.
     - apply IH.
-    - apply (IH (say t w)).
+    - apply (IHg (say t w)).
+    - destruct (IHg w) as (A1 & A2 & A3). destruct (Model.drive assign canc g w) as [st w1]. cbn [fst snd] in *.
+      destruct st as [r|d k'].
+      + destruct (IH r w1) as (B1 & B2 & B3). rewrite B1, B2, A1, A2. repeat split; try reflexivity.
+        destruct (fst (Model.drive assign canc (k r) w1)); [exact I|]. rewrite <- A1. exact B3.
+      + cbn. auto.
   Qed.
 
   Lemma drive_WF g w : (forall d, In d (cancelled w) -> In d (fired w)) -> WF (drive g w).
@@ -65,9 +70,9 @@ Section Proofs.
   Definition agrees (w : world) : Prop :=
     (forall d, In d (cancelled w) -> In d c) /\ (forall d, In d c -> In d (fired w) -> In d (cancelled w)).
 
-  Definition sync_of (p : status * world) : outcome * list obs :=
+  Definition sync_of (p : status * world) : outcome * list nat * list obs :=
     match fst p with
-    | Finished r => (r, own (seen (snd p)))
+    | Finished r => (r, consumed (snd p), own (seen (snd p)))
     | Suspended d k => sync out (GYieldD d k) (consumed (snd p)) (own (seen (snd p)))
     end.
 
@@ -79,16 +84,25 @@ Section Proofs.
     - apply mem_In in E2. apply (A2 d E2) in Hf. apply mem_In in Hf. congruence.
   Qed.
 
+  Lemma agrees_same w w' : fired w' = fired w -> cancelled w' = cancelled w -> agrees w -> agrees w'.
+  Proof. unfold agrees. intros -> ->. auto. Qed.
+
   Lemma drive_sync g : forall w, agrees w -> sync_of (drive g w) = sync out g (consumed w) (own (seen w)).
   Proof.
-    induction g as [v|e|d k IH|v k IH|t g IH]; intros w Ha; cbn [Model.drive Model.sync].
+    induction g as [v|e|d k IH|v k IH|t g IHg|g IHg k IH]; intros w Ha; cbn [Model.drive Model.sync].
     - reflexivity.
     - reflexivity.
     - destruct (mem d (fired w)) eqn:Ef.
       + rewrite IH by exact Ha. apply mem_In in Ef. unfold current. rewrite (eff_agrees w d Ha Ef). reflexivity.
       + reflexivity.
     - apply IH. exact Ha.
-    - rewrite IH by exact Ha. reflexivity.
+    - rewrite IHg by exact Ha. reflexivity.
+    - specialize (IHg w Ha). destruct (drive_world g w) as (A1 & A2 & _).
+      destruct (Model.drive assign canc g w) as [st w1]. cbn [fst snd] in *.
+      assert (Ha1 : agrees w1) by (eapply agrees_same; eassumption).
+      rewrite <- IHg. destruct st as [r|d k'].
+      + unfold sync_of at 2. cbn [fst snd]. apply IH. exact Ha1.
+      + unfold sync_of. cbn [fst snd Model.sync]. reflexivity.
   Qed.
 
   (** one step, read backwards: if the world after the step agrees with [c], so did the world before, and the
@@ -203,7 +217,8 @@ Section Proofs2.
   Lemma step_finished o r w :
     fst (step assign canc (Finished r, w) o) = Finished r /\
     own (seen (snd (step assign canc (Finished r, w) o))) = own (seen w) /\
-    cancelled (snd (step assign canc (Finished r, w) o)) = cancelled w.
+    cancelled (snd (step assign canc (Finished r, w) o)) = cancelled w /\
+    consumed (snd (step assign canc (Finished r, w) o)) = consumed w.
   Proof. destruct o as [d|]; cbn; [destruct (mem d (fired w))|]; repeat split; reflexivity. Qed.
 
   (** cancelling while suspended on d cancels exactly d (and resumes the function with d's outcome) *)
